@@ -23,6 +23,9 @@ source on disk is never touched; node positions are kept, so reports still point
   5. loops over a short literal tuple / list of *variables* (``for src in (self.resources, overrides): d.update(src)``)
      are unrolled (``Unroll``); loops over constants (slot-name tables) keep their shape.
 
+  7. helpers imported *by name* from a private module of the package (``from ._priv import helper``) are expanded like the
+     module's own private helpers when every free name of their body means the same in both modules (``collect_imported_helpers``).
+
 Anything the inliner cannot restructure soundly (returns inside nested loops, ``finally`` with a pending
 continuation, ...) is left as the call it was: normalisation never guesses.
 """
@@ -1797,7 +1800,7 @@ def _module_bindings(tree):
 
 def collect_imported_helpers(tree, anchors, imported):
     """Helpers that live in a *private module* of the analysed package and that this module imports by name at its top level
-    (``from ._pathops import split_binding``): name -> Helper, expanded at their calls like the module's own private helpers.
+    (``from ._priv import helper``): name -> Helper, expanded at their calls like the module's own private helpers.
     ``imported(ImportFrom node)`` -> the parsed (raw) tree of the module the statement names, or None.  A function qualifies when
       * the module's own name is private (``_x``, not dunder) and no rule names the module or the function;
       * the name is bound exactly once in this module (the import itself) and exactly once in the other (a top-level plain def);
